@@ -172,6 +172,23 @@ def check(run, driver):
         if snapshot(data) != before:
             run.prop_fail("caller's data object modified", case, {"clause": "purity", "estimator": info})
         well_formed(run, case, G, names, L, nsh, {"clause": "well_formed", "estimator": info})
+    # ---- several parents per target under the neighbour-based estimators (their raw conditional estimates are often negative:
+    #      the reported cmi must still never be a finite negative number), LASSO selections so that parents exist
+    for it in range(20 if thorough else 8):
+        info = ["geometric_knn", "geometric_knn", "geometric_knn", "knn"][it % 4]; method = ["lasso", "information_lasso"][it % 2]
+        n, L, T = 3, 2, int(rng.integers(26, 34))
+        arr = rng.standard_normal((T, n))
+        arr[1:, 1] += 0.6 * arr[:-1, 0] + 0.5 * arr[:-1, 2]; arr[2:, 0] += 0.5 * arr[:-2, 1] + 0.4 * arr[:-2, 2]
+        names = [f"X{i}" for i in range(n)]
+        case = {"information": info, "method": method, "n": n, "max_lag": L, "T": T, "k_means": 2, "n_shuffles": 3, "data": arr}
+        try:
+            with quiet():
+                G = discover_network(arr.copy(), method=method, information=info, max_lag=L, n_shuffles=3, k_means=2)
+        except Exception as e:  # noqa
+            run.prop_fail("valid request raises", case, {"clause": "total", "estimator": info}, repr(e)); continue
+        multi = max([G.in_degree(v) for v in G.nodes()] + [0])
+        run.case("real-multi-parent", [info, method, T, float(arr[0, 0])], multi >= 2, sample={k_: case[k_] for k_ in case if k_ != "data"} | {"edges": G.number_of_edges(), "max_parents": multi})
+        well_formed(run, case, G, names, L, 3, {"clause": "well_formed", "estimator": info})
     # ---- rejections
     good = rng.standard_normal((30, 2))
     for m in ["Standard", "", "pcmci", None, "lasso ", 3]:
